@@ -33,6 +33,18 @@ impl SweepCtx<'_> {
     }
 }
 
+/// Like `par_for`, but a panic escaping an item (the crate panicked where the harness did not
+/// expect it, e.g. a constructor refusing a valid text) is reported as a violation of `prop`
+/// instead of killing the engine.
+pub fn par_for_guarded(cx: &SweepCtx, prop: &'static str, n: usize, threads: usize, f: impl Fn(usize) + Sync) {
+    par_for(n, threads, |i| {
+        if let Err(m) = quiet(|| f(i)) {
+            let v = Viol { prop, oracle: "unexpected-panic", detail: format!("sweep item {i}: the crate panicked: {m}") };
+            cx.report(&[v], "sweep", "-", &format!("item {i}"));
+        }
+    });
+}
+
 /// Runs `f(i)` for i in 0..n on `threads` threads.
 pub fn par_for(n: usize, threads: usize, f: impl Fn(usize) + Sync) {
     let next = AtomicUsize::new(0);
@@ -208,7 +220,7 @@ pub fn c08_sweep(cx: &SweepCtx, quick: bool, threads: usize) {
         storages.push(Storage::HeapSharedMuchShorter(big));
     }
     let storages = &storages;
-    par_for(lens.len(), threads, |li| {
+    par_for_guarded(cx, "C08", lens.len(), threads, |li| {
         let len = lens[li];
         let text = long_text(len);
         for &st in storages {
@@ -316,7 +328,13 @@ pub fn c08_sweep(cx: &SweepCtx, quick: bool, threads: usize) {
 // -------------------------------------------------------------------------------------
 // C09: constructor sweep
 
-pub const CTOR_NAMES: [&str; 10] = ["From<&str>", "From<String>", "From<&String>", "From<Box<str>>", "From<Cow::Borrowed>", "From<Cow::Owned>", "FromStr", "from_utf8", "to_lean_string(String)", "from_utf8_unchecked"];
+pub const CTOR_NAMES: [&str; 15] = ["From<&str>", "From<String>", "From<&String>", "From<Box<str>>", "From<Cow::Borrowed>", "From<Cow::Owned>", "FromStr", "from_utf8", "to_lean_string(String)", "from_utf8_unchecked", "From<String with spare capacity>", "From<&String with spare capacity>", "From<Cow::Owned with spare capacity>", "to_lean_string(String with spare capacity)", "From<String truncated from a longer one>"];
+
+fn spare(t: &str, extra: usize) -> String {
+    let mut s = String::with_capacity(t.len() + extra);
+    s.push_str(t);
+    s
+}
 
 fn construct(which: usize, t: &str) -> LeanString {
     match which {
@@ -329,7 +347,16 @@ fn construct(which: usize, t: &str) -> LeanString {
         6 => t.parse().unwrap(),
         7 => LeanString::from_utf8(t.as_bytes()).unwrap(),
         8 => t.to_string().to_lean_string(),
-        _ => unsafe { LeanString::from_utf8_unchecked(t.as_bytes()) },
+        9 => unsafe { LeanString::from_utf8_unchecked(t.as_bytes()) },
+        10 => LeanString::from(spare(t, 2 * INLINE + 5)),
+        11 => LeanString::from(&spare(t, 100)),
+        12 => LeanString::from(Cow::<str>::Owned(spare(t, INLINE + 1))),
+        13 => spare(t, 1000).to_lean_string(),
+        _ => {
+            let mut s = format!("{t}{}", ascii(3 * INLINE));
+            s.truncate(t.len());
+            LeanString::from(s)
+        }
     }
 }
 
@@ -383,7 +410,7 @@ pub fn c09_sweep(cx: &SweepCtx, quick: bool, threads: usize) {
     for n in [100, 1000, 65536] {
         texts_.push(long_text(n));
     }
-    par_for(texts_.len(), threads, |ti| {
+    par_for_guarded(cx, "C09", texts_.len(), threads, |ti| {
         let t = &texts_[ti];
         cx.trace(&format!("constructors of {t:?}"));
         for which in 0..CTOR_NAMES.len() {
@@ -398,7 +425,7 @@ pub fn c09_sweep(cx: &SweepCtx, quick: bool, threads: usize) {
     });
     // chars, bools, integers
     let chars: Vec<char> = if quick { (0..=0x10FFFFu32).step_by(257).filter_map(char::from_u32).chain(CHARS).collect() } else { (0..=0x10FFFFu32).filter_map(char::from_u32).collect() };
-    par_for(16, threads, |part| {
+    par_for_guarded(cx, "C09", 16, threads, |part| {
         for (n, &c) in chars.iter().enumerate() {
             if n % 16 != part {
                 continue;
@@ -478,7 +505,7 @@ pub fn c09_sweep(cx: &SweepCtx, quick: bool, threads: usize) {
 
 pub fn c12_sweep(cx: &SweepCtx, quick: bool, threads: usize) {
     let max = if quick { 80 } else { 200 };
-    par_for(max + 1, threads, |len| {
+    par_for_guarded(cx, "C12", max + 1, threads, |len| {
         let text = long_text(len);
         cx.trace(&format!("growth sweep at len {len}"));
         for st in STORAGES {
@@ -521,7 +548,7 @@ pub fn c12_sweep(cx: &SweepCtx, quick: bool, threads: usize) {
     });
     // push loops: one char of width w until `total` bytes, every prefix observed
     let total: usize = if quick { 256 << 10 } else { 4 << 20 };
-    par_for(4, threads, |wi| {
+    par_for_guarded(cx, "C12", 4, threads, |wi| {
         let ch = CHARS[wi];
         let w = ch.len_utf8();
         shim::with(|s| s.reset());
@@ -661,7 +688,7 @@ pub fn c17_zoo(cx: &SweepCtx, quick: bool, threads: usize) {
     // build the zoo once per worker chunk: items = (text index, route)
     let items: Vec<(usize, usize)> = (0..texts_.len()).flat_map(|t| (0..ROUTES).map(move |r| (t, r))).collect();
     let n = items.len();
-    par_for(n, threads, |ai| {
+    par_for_guarded(cx, "C17", n, threads, |ai| {
         shim::with(|s| s.reset());
         let (ta, ra) = items[ai];
         let sa = &texts_[ta];
@@ -700,7 +727,7 @@ pub fn c07_text_sweep(cx: &SweepCtx, quick: bool, threads: usize) {
             }
         }
     }
-    par_for(texts_.len(), threads, |ti| {
+    par_for_guarded(cx, "C07", texts_.len(), threads, |ti| {
         let t = &texts_[ti];
         cx.trace(&format!("index text sweep of {t:?}"));
         for st in STORAGES {
@@ -769,12 +796,18 @@ pub fn c20_sweep(cx: &SweepCtx, quick: bool) {
     for len in lens {
         texts_.push(long_text(len));
     }
-    for t in &texts_ {
+    par_for_guarded(cx, "C20", texts_.len(), 1, |ti| {
+        let t = &texts_[ti];
         for st in STORAGES {
             shim::with(|s| s.reset());
-            let b = match build(t, st) {
-                Some(b) => b,
-                None => continue,
+            let b = match quiet(|| build(t, st)) {
+                Ok(Some(b)) => b,
+                Ok(None) => continue,
+                Err(m) => {
+                    let v = Viol { prop: "C20", oracle: "valid-text-refused", detail: format!("building a {}-byte text ending in {:#04x} as {st:?} panicked: {m}", t.len(), t.as_bytes().last().copied().unwrap_or(0)) };
+                    cx.report(&[v], "niche-sweep", &format!("{st:?}"), &format!("{t:?}"));
+                    continue;
+                }
             };
             cx.count();
             let mut out = Vec::new();
@@ -796,6 +829,6 @@ pub fn c20_sweep(cx: &SweepCtx, quick: bool) {
             cx.stats.class(format!("{st:?}/last-byte-{}", if last < 0xC0 { "text" } else if last <= 0xCF { "inline-len" } else { "marker" }));
             cx.report(&out, "niche-sweep", &format!("{st:?}"), &desc);
         }
-    }
+    });
     cx.stats.sample(|| format!("{} texts x 7 storage states; None::<LeanString> stores {none_tag:#x} in the last byte", texts_.len()));
 }
